@@ -321,7 +321,13 @@ func (d cliDir) entries() []string {
 }
 
 // run executes one invocation in the scratch directory.
-func (d cliDir) run(r cliRun, nocache bool) cliResult {
+func (d cliDir) run(r cliRun, nocache bool) cliResult { return d.runEnv(r, nocache, nil, -1) }
+
+// runEnv: as run, with another environment (env != nil replaces the HOME / XDG_CACHE_HOME /
+// TMPDIR settings) and, when skip >= 0, with stdin a REGULAR FILE that holds `skip` bytes of
+// other text in front of the input and is positioned behind them (what `{ read x; gts …; } < file`
+// hands to the command).
+func (d cliDir) runEnv(r cliRun, nocache bool, env []string, skip int) cliResult {
 	args := []string{r.cmd}
 	if nocache {
 		// first: go-gts/flags lets a slice option (-q, -n) swallow following words depending on what
@@ -353,7 +359,26 @@ func (d cliDir) run(r cliRun, nocache bool) cliResult {
 	cmd := exec.CommandContext(ctx, gtsBinary(), args...)
 	cmd.Env = []string{"HOME=" + filepath.Join(d.root, "home"), "XDG_CACHE_HOME=" + filepath.Join(d.root, "cache"),
 		"TMPDIR=" + filepath.Join(d.root, "tmp"), "PATH=/usr/bin:/bin"}
+	if env != nil {
+		cmd.Env = append([]string{"PATH=/usr/bin:/bin"}, env...)
+	}
 	cmd.Stdin = bytes.NewReader(r.primary.bytes())
+	if skip >= 0 {
+		p := filepath.Join(d.root, "stdin.txt")
+		pre := bytes.Repeat([]byte("# header line\n"), skip/14+1)[:skip]
+		if err := ioutil.WriteFile(p, append(append([]byte{}, pre...), r.primary.bytes()...), 0644); err != nil {
+			panic(err)
+		}
+		f, err := os.Open(p)
+		if err != nil {
+			panic(err)
+		}
+		defer f.Close()
+		if _, err := f.Seek(int64(skip), 0); err != nil {
+			panic(err)
+		}
+		cmd.Stdin = f
+	}
 	var stdout bytes.Buffer
 	cmd.Stdout = &stdout
 	cmd.Stderr = ioutil.Discard
@@ -991,6 +1016,7 @@ func propC14(r *Run) {
 		primaries = append(primaries, inFile("NC_000913.3.min.gb"))
 	}
 	var hists []cliHist
+	c14Environments(r)
 
 	// --- systematic sweeps, every command
 	for ci := range c14Cmds {
